@@ -36,6 +36,16 @@ impl Client {
             )));
         }
 
+        // wait until hyper's connection task can take the next request: right after the previous
+        // response completed the dispatcher may not have signalled readiness yet, and send_request
+        // would fail with "connection was not ready"
+        if let Err(e) = self.sender.ready().await {
+            return Err(Error::Hyper(HyperErrorType::HostConnection(format!(
+                "the connection is not ready: {}",
+                e
+            ))));
+        }
+
         let full_url = req.uri().to_string();
         self.sender.send_request(req).await.map_err(|e| {
             Error::Hyper(HyperErrorType::Custom(
